@@ -44,12 +44,12 @@ proof {
     assert(rest@ =~= rest_before.subrange(idx + 3, rest_before.len() as int));
     match name_dec(rest@) { Some(t) => { assert(s_before + (rest_before.subrange(0, idx as int).push(byte) + t) =~= s@ + t); }, None => {} }
 }'''
-STR_LOOP = '''loop { proof { lemma_lit_progress(string_lexer.buf@, string_lexer.pos as int, string_lexer.nested as int); }
+STR_LOOP = '''loop { proof { lemma_lit_unfold(rem, string_lexer.pos as int, string_lexer.nested as int); lemma_lit_progress(string_lexer.buf@, string_lexer.pos as int, string_lexer.nested as int); }
     let ghost st = lit_step(rem, string_lexer.pos as int, string_lexer.nested as int);
     match string_lexer.iter_next() { None => { proof { lemma_str_ends(string@, st.pos, None); } break; } Some(character) => {
         proof { if character is Ok { lemma_str_step(string@, character->Ok_0, lit_str(rem, st.pos, st.nested)); } }
         string.push(t!(character)); } } }'''
-HEX_LOOP = '''loop { proof { lemma_hex_progress(hex_string_lexer.buf@, hex_string_lexer.pos as int); }
+HEX_LOOP = '''loop { proof { lemma_hex_unfold(rem, hex_string_lexer.pos as int); lemma_hex_progress(hex_string_lexer.buf@, hex_string_lexer.pos as int); }
     let ghost st = hex_step(rem, hex_string_lexer.pos as int);
     match hex_string_lexer.iter_next() { None => { proof { lemma_str_ends(string@, st.pos, None); } break; } Some(byte) => {
         proof { if byte is Ok { lemma_str_step(string@, byte->Ok_0, hex_str(rem, st.pos)); } }
@@ -129,6 +129,7 @@ UNIT = {
                  ('ok_consumes', PROGRESS)]
                 + [(lbl, '%s == %d ==> %s' % (CLS, k, VALUE)) for k, lbl in ARMS],
      'decreases': 'max_depth, 1nat',
+     'attrs': ['#[verifier::loop_isolation(false)]', '#[verifier::allow_complex_invariants]'],
      'loops': {
         1: {'invariant': ['rest@.len() <= isize::MAX', 'lexer.wf()', 'lexer.same(old(lexer))', 'lexer.pos > old(lexer).pos',
                           ('name_decoded_so_far', 'name_dec(rest0) == opt_prepend(s@, name_dec(rest@))')],
@@ -154,7 +155,7 @@ UNIT = {
         top(' proof { lemma_flag_bits(flags.bits); }'), BLIT,
         {'rule': 'R1', 'find': 'let obj = if first_lexeme.equals(blit("<<")) {',
          'replace': 'let ghost w = first_lexeme.slice@; let ghost t1 = lexer.pos as int;'
-                    ' proof { lemma_real_iso_is_lit(w); axiom_f32_accepts_iso_reals(w); lemma_starts_slash(w); }'
+                    ' proof { lemma_obj_unfold(r, e0, p0, max_depth as nat); lemma_kw_first(); lemma_real_iso_is_lit(w); axiom_f32_accepts_iso_reals(w); lemma_starts_slash(w); }'
                     ' let obj = if first_lexeme.equals(blit("<<")) {'},
         {'rule': 'R7', 'find': 'ParseFlags::INTEGER | ParseFlags::REF', 'replace': 'flags_or(ParseFlags::INTEGER, ParseFlags::REF)'},
         {'rule': 'R3', 'find': 'PdfError::PrimitiveNotAllowed { allowed: ParseFlags::STREAM, found: flags }', 'replace': 'PdfError::PrimitiveNotAllowed'},
@@ -177,7 +178,7 @@ UNIT = {
          'replace': 'let mut array = Vec::new(); let ghost mut vals: Seq<Val> = Seq::empty(); let ghost pa = lexer.pos as int;'
                     ' proof { lemma_arr_ends(vals, 0, arr_at(r, e0, pa, %s)); }' % D1},
         {'rule': 'R1', 'find': 'if lexer.peek()?.equals(blit("]")) { break; }',
-         'replace': 'if lexer.peek()?.equals(blit("]")) { proof { lemma_arr_ends(vals, tok(lexer.buf@, lexer.pos as int).unwrap().1, None); } break; }'},
+         'replace': 'proof { lemma_arr_unfold(r, e0, lexer.pos as int, %s); } if lexer.peek()?.equals(blit("]")) { proof { lemma_arr_ends(vals, tok(lexer.buf@, lexer.pos as int).unwrap().1, None); } break; }' % D1},
         {'rule': 'R1', 'find': 'let element = t!(parse_with_lexer_ctx(lexer, r, ctx, ParseFlags::ANY, max_depth-1));',
          'replace': 'let ghost pk = lexer.pos as int; let ghost xk = obj_at(r, e0, pk, %s);'
                     ' proof { if xk is Some { lemma_any_allows(xk.unwrap().0); } }'
@@ -201,6 +202,7 @@ UNIT = {
                  ('value_dictionary', 'dict_at(r, env_of(old(lexer), ctx), old(lexer).pos as int, max_depth as nat, Map::<Seq<u8>, Val>::empty()) matches Some(x)'
                                       ' ==> (res matches Ok(d) && rep_dict(d, x.0) && final(lexer).pos == x.1)')],
      'decreases': 'max_depth, 3nat',
+     'attrs': ['#[verifier::loop_isolation(false)]', '#[verifier::allow_complex_invariants]'],
      'loops': {1: {'invariant': ['lexer.wf()', 'lexer.same(old(lexer))', 'lexer.pos >= old(lexer).pos', 'e0 == env_of(lexer, ctx)',
                                  ('dict_entries_so_far', 'total is Some ==> (total == dict_at(r, e0, lexer.pos as int, max_depth as nat, m) && rep_dict(dict, m))')],
                    'ensures': ['lexer.wf()', 'lexer.same(old(lexer))', 'lexer.pos > old(lexer).pos',
@@ -208,6 +210,7 @@ UNIT = {
                    'decreases': 'lexer.buf@.len() - lexer.pos'}},
      'rewrites': [top(' let ghost mut m: Map<Seq<u8>, Val> = Map::empty(); let ghost total = dict_at(r, e0, p0, max_depth as nat, m);'), BLIT,
         {'rule': 'R3', 'find': 'lexeme: token.to_string(),', 'replace': ''},
+        {'rule': 'R1', 'find': 'let token = t!(lexer.next());', 'replace': 'proof { lemma_dict_unfold(r, e0, lexer.pos as int, max_depth as nat, m); } let token = t!(lexer.next());'},
         {'rule': 'R1', 'find': 'if token.starts_with(blit("/")) {', 'replace': 'proof { lemma_starts_slash(token.slice@); } if token.starts_with(blit("/")) {'},
         {'rule': 'R1', 'find': 'let obj = t!(parse_with_lexer_ctx(lexer, r, ctx, ParseFlags::ANY, max_depth));',
          'replace': 'let ghost xk = obj_at(r, e0, lexer.pos as int, max_depth as nat);'
@@ -224,7 +227,7 @@ UNIT = {
                  ('value_stream', 'forall|m: Map<Seq<u8>, Val>| #[trigger] rep_dict(dict, m) ==>'
                                   ' (stream_at(r, env_of(old(lexer), Some(ctx)), m, old(lexer).pos as int) matches Some(x)'
                                   ' ==> (res matches Ok(s) && rep(Primitive::Stream(s), x.0) && final(lexer).pos == x.1))')],
-     'rewrites': [LITS,
+     'rewrites': [{'rule': 'R1', 'regex': r'\A\{', 'replace': '{\n    broadcast use {b_tok, b_ws_end};\n    proof { lemma_lits(); reveal(stream_at); }'},
         {'rule': 'R5', 'find': 'Some(&Primitive::Integer(n)) if n >= 0 => n as usize,',
          'replace': 'Some(Primitive::Integer(n_)) if *n_ >= 0 => { let n = *n_; n as usize },'},
         {'rule': 'R5', 'find': 'Some(&Primitive::Reference(reference)) => t!(t!(r.resolve_flags(reference, ParseFlags::INTEGER, 1)).as_usize()),',
